@@ -22,7 +22,11 @@ ND = {'i8': 'Int8', 'i16': 'Int16', 'i32': 'Int32', 'i64': 'Int64', 'u8': 'Uint8
 LIST_INT = {'list_i8': (-128, [5, -128, 127]), 'list_u8': (0, [200, 128, 255]),
             'list_i16': (0, [-129, 300, -32768, 32767]), 'list_u16': (0, [40000, 32768, 65535]),
             'list_i32': (0, [-32769, 70000, -2 ** 31, 2 ** 31 - 1]), 'list_u32': (0, [2 ** 31, 3000000000, 2 ** 32 - 1]),
-            'list_i64': (0, [-2 ** 31 - 1, 2 ** 32, -2 ** 63, 2 ** 63 - 1]), 'list_u64': (0, [2 ** 63, 2 ** 64 - 1, 2 ** 63 + 5])}
+            'list_i64': (0, [-2 ** 31 - 1, 2 ** 32, -2 ** 63, 2 ** 63 - 1]), 'list_u64': (0, [2 ** 63, 2 ** 64 - 1, 2 ** 63 + 5]),
+            # a negative value next to one from the upper half of the unsigned range of the same width: no type of that width
+            # holds both (the writer may refuse the list or widen the type, it must not wrap a value)
+            'list_mix8': (0, [200, -1, 100]), 'list_mix16': (0, [40000, -5, 7]), 'list_mix32': (0, [3000000000, -1, 2 ** 31]),
+            'list_mix64': (0, [2 ** 63, -1, 5])}
 OTHER = ['list_float', 'list_bool', 'list_str', 'arr_str_U', 'arr_str_O', 'list_datetime', 'arr_dt64', 'arr_tsarray']
 KINDS = list(ND) + list(LIST_INT) + OTHER
 
@@ -308,7 +312,19 @@ def run_program(calls, assign, split, version, dest, index):
             with w:
                 for ci in sess:
                     # objects are built right before they are written (a reused instance gets its new data only then)
-                    objs, model = build_objects(calls[ci], assign, counters, instances)
+                    before = dict(counters)
+                    try:
+                        objs, model = build_objects(calls[ci], assign, counters, instances)
+                    except Skip:
+                        raise
+                    except (TypeError, ValueError, OverflowError, AttributeError):
+                        # the object constructor refused the input (e.g. an integer list no type of its width can hold): the same
+                        # as a refused call - nothing is written, the program continues
+                        counters.clear()
+                        counters.update(before)
+                        models.append([])
+                        rejected.append(ci)
+                        continue
                     models.append(model)
                     r = H.guarded(w.write_segment, objs)
                     if r[0] != 'ok':
